@@ -15,7 +15,7 @@ from vf.models import multipart_codec as MC
 PROPERTY = "C01"
 LEVEL = "exploration"
 SHARDS = {"quick": 4, "thorough": 16}
-REQUIRED = ["ground-truth-compare", "event-grammar", "path-events", "path-sync", "path-async", "path-wsgi-form", "path-asgi-form", "all-single-cuts"]
+REQUIRED = ["ground-truth-compare", "event-grammar", "path-events", "path-sync", "path-async", "path-wsgi-form", "path-asgi-form", "all-single-cuts", "decoder-state-isolation"]
 RULE = ("Forms of 0-4 parts (field/file mix) whose content is drawn from an adversarial alphabet {CR, LF, CRLF, '-', '--', CRLF'--', every proper prefix of "
         "CRLF'--'boundary, the boundary without dashes, NUL, 0xFF, space, tab, text}, scrubbed of '--'boundary, starting/ending with CR, LF, '--'; 10 boundaries "
         "from the RFC 2046 bchars set (1-70 chars, with '-', space, punctuation); names/filenames with ';', '=', spaces, non-ASCII, empty; optional preamble, "
@@ -276,6 +276,76 @@ def do_form(ctx, rng, form, all_cuts_paths, sampled, pair_limit):
         ctx.case((body, cuts, path, len(chunks)) if form["parts"] else None)
 
 
+def collect_events(d, out, state):
+    """drain one decoder: append finished parts to out"""
+    from baize.multipart import Data, Epilogue, Field, File, NeedData
+    while True:
+        ev = d.next_event()
+        if isinstance(ev, (NeedData, Epilogue)):
+            return
+        if isinstance(ev, Field):
+            state["cur"] = [ev.name, None, b"", None]
+        elif isinstance(ev, File):
+            state["cur"] = [ev.name, ev.filename, b"", ev.headers.get("content-type")]
+        elif isinstance(ev, Data):
+            state["cur"][2] += ev.data
+            if not ev.more_data:
+                out.append(tuple(state["cur"]))
+
+
+def stateful(ctx, rng):
+    """decoders must not share state: two parses interleaved chunk by chunk, and a parse abandoned half-way followed by a fresh one"""
+    from baize.datastructures import UploadFile
+    from baize.multipart import MultipartDecoder
+    from baize.multipart_helper import parse_stream
+    b = rng.choice([b"bb", b"boundary"])
+    fa, fb = MC.gen_form(rng, boundary=b), MC.gen_form(rng, boundary=b)
+    (ba, _), (bb, _) = MC.encode(fa), MC.encode(fb)
+    size = rng.choice([1, 5, 17])
+    ca = [ba[i:i + size] for i in range(0, len(ba), size)]
+    cb = [bb[i:i + size] for i in range(0, len(bb), size)]
+    da, db = MultipartDecoder(b, "utf8"), MultipartDecoder(b, "utf8")
+    oa, ob, sa, sb = [], [], {}, {}
+    case = {"form_a": fa, "form_b": fb, "chunk": size, "kind": "two decoders fed alternately"}
+    ctx.mon("decoder-state-isolation")
+    try:
+        for i in range(max(len(ca), len(cb)) + 1):
+            for d, chunks, out, st in ((da, ca, oa, sa), (db, cb, ob, sb)):
+                if i < len(chunks):
+                    d.receive_data(chunks[i])
+                elif i == len(chunks):
+                    d.receive_data(None)
+                else:
+                    continue
+                collect_events(d, out, st)
+        if oa != MC.expected(fa) or ob != MC.expected(fb):
+            ctx.violation("decoders-share-state|interleaved-parses-mix", case, f"a: {oa!r} vs {MC.expected(fa)!r}\nb: {ob!r} vs {MC.expected(fb)!r}")
+    except Exception as e:
+        ctx.violation(f"decoders-share-state|interleaved|{type(e).__name__}", case, repr(e)[:200])
+    # abandoned parse, then a fresh one with the same boundary
+    case = {"form_a": fa, "form_b": fb, "kind": "parse of A abandoned half-way, then B parsed"}
+
+    class Abort(Exception):
+        pass
+
+    def half():
+        yield ba[:len(ba) // 2]
+        raise Abort()
+    try:
+        parse_stream(half(), b, "utf8", file_factory=UploadFile)
+    except Abort:
+        pass
+    except Exception:
+        pass
+    try:
+        got = norm(parse_stream(iter([bb]), b, "utf8", file_factory=UploadFile))
+        if got != MC.expected(fb):
+            ctx.violation("decoders-share-state|abandoned-parse-leaks-into-next", case, f"{got!r} vs {MC.expected(fb)!r}")
+    except Exception as e:
+        ctx.violation(f"decoders-share-state|after-abandoned|{type(e).__name__}", case, repr(e)[:200])
+    return case
+
+
 def run(ctx):
     rng = ctx.rng("c01")
     if ctx.shard == 0:
@@ -287,6 +357,10 @@ def run(ctx):
         do_form(ctx, rng, form, ("events", "sync"), 12 if ctx.quick else 30, 120 if ctx.quick else 160)
         if i < 2:
             ctx.sample("form", {"form": form})
+    for i in range(ctx.scale(300, 20_000)):
+        case = stateful(ctx, rng)
+        ctx.case(("stateful", repr(case)))
+    ctx.sample("stateful", {"kind": "two decoders fed alternately / abandoned parse then fresh parse, same boundary"})
     # bigger contents (several KB) with sparse cuts through every path
     for i in range(ctx.scale(40, 6000)):
         form = MC.gen_form(rng, max_parts=3)
